@@ -81,6 +81,11 @@ def parent(t: str) -> bool:
         return fail("div-string")
     if back != sid:
         return fail("div-roundtrip")
+    up = sid.get_with(**{keys[-1]: None})           # removing the last key is another way up ...
+    if up != p or list(up.fields.items()) != list(p.fields.items()):
+        return fail("get_with-last-None-is-not-the-parent")
+    if list(sid.fields.items()) != list(f.items()) or len(sid) != len(keys) or sid.parent != p:
+        return fail("sid-changed-by-navigation")     # ... and none of this alters the Sid itself
     return True
 
 
